@@ -15,7 +15,7 @@ class C13(Prop):
             "non-trivial = at least 3 edges and a topology with both a self-paired and a split class or at least 2 calls; distinct = distinct case")
     assumptions = ["float accumulations of 1/E and 0.5/E are mapped back to the unique rational with denominator <= 2*E (exact for these sizes)"]
     model_scope = "modelled: joint_excess_joint_degree.py, joint_excess_degree.py, JointExcessJointDegreeMatrices.get_excess_degree_keys"
-    budgets = {"quick": 300, "thorough": 4000}
+    budgets = {"quick": 300, "thorough": 12000}
     search_budget = {"quick": 800, "thorough": 6000}
 
     def gen(self, rng, i, tier):
